@@ -1,6 +1,6 @@
 (* C17 — rechunk helpers keep the data and establish their postconditions. *)
 From Coq Require Import ZArith String List Bool.
-From Flox Require Import Factorize Rechunk RechunkLaw.
+From Flox Require Import Factorize Rechunk RechunkLaw RechunkStraddle.
 Import ListNotations.
 Open Scope Z_scope.
 
@@ -11,6 +11,15 @@ Theorem C17_blockwise_chunks_wf :
     Forall (fun c => 0 < c) (optimal_chunks chunks labels) /\
     zsum (optimal_chunks chunks labels) = zsum chunks.
 Proof. exact optimal_chunks_wf. Qed.
+
+(* ... and with SEQUENTIAL labels (every label occupies one contiguous run, label values in any order)
+   no group straddles a boundary of the new chunking: for every new boundary b no label occurs both
+   before b and at or after b *)
+Theorem C17_blockwise_no_group_straddles :
+  forall chunks labels, chunks <> [] -> Forall (fun c => 0 < c) chunks -> zlength labels = zsum chunks ->
+    contiguous labels ->
+    forall b, In b (cumsum (optimal_chunks chunks labels)) -> no_straddle labels b.
+Proof. exact optimal_chunks_no_straddle. Qed.
 
 (* rechunk_for_cohorts: for ALL labels, forced sets, chunksize hints and old chunkings *)
 Theorem C17_cohorts_chunks_wf :
@@ -34,6 +43,7 @@ Theorem C17_old_boundaries_kept :
 Proof. intros. exact (cohort_loop_oldbreaks force oldbreaks chunksize labels 0 1 k H H0). Qed.
 
 Print Assumptions C17_blockwise_chunks_wf.
+Print Assumptions C17_blockwise_no_group_straddles.
 Print Assumptions C17_cohorts_chunks_wf.
 Print Assumptions C17_forced_label_starts_chunk.
 Print Assumptions C17_old_boundaries_kept.
